@@ -305,6 +305,19 @@ func init() {
 			return s
 		}
 		if c.Replay != nil {
+			if raw, ok := c.Replay["many_ids"].([]any); ok {
+				var lists []c11List
+				for k, v := range raw {
+					id := int(v.(float64))
+					content := fmt.Sprintf("! list %d\n||l%d.test^\n0.0.0.0 h%d.test\nexample.org##.c%d\n", id, k, k, k)
+					if k%3 == 1 {
+						content = fmt.Sprintf("! a longer header for list %d ----------------\n\n0.0.0.0 h%d.test alias%d.test\n||l%d.test^$important\n", id, k, k, k)
+					}
+					lists = append(lists, c11List{id, content, k%4 == 2})
+				}
+				c11Check(c, lists, map[string]any{}, c.Replay)
+				return
+			}
 			if f, ok := c.Replay["synthetic_final"].(string); ok {
 				c11Check(c, c11Synthetic(f), map[string]any{}, c.Replay)
 				return
@@ -449,6 +462,19 @@ func init() {
 		}
 		// synthetic lists larger than the read buffer: repeated host names, rules of
 		// every kind, with and without a final line terminator
+		// more lists than the id assignments above use: six and eight lists, ids in no particular order
+		for _, ids := range [][]int{{50, 10, 40, 20, 30, -5}, {3, 1, 2, 4, 5, 0, -1, 7}, {10, 20, 30, 40, 50, 15}, {math.MaxInt32, 5, math.MinInt32, 4, 0, 3, -2, 1}} {
+			var lists []c11List
+			for k, id := range ids {
+				content := fmt.Sprintf("! list %d\n||l%d.test^\n0.0.0.0 h%d.test\nexample.org##.c%d\n", id, k, k, k)
+				if k%3 == 1 {
+					content = fmt.Sprintf("! a longer header for list %d ----------------\n\n0.0.0.0 h%d.test alias%d.test\n||l%d.test^$important\n", id, k, k, k)
+				}
+				lists = append(lists, c11List{id, content, k%4 == 2})
+			}
+			evals += c11Check(c, lists, map[string]any{"lists": len(ids), "ids": fmt.Sprint(ids)}, map[string]any{"many_ids": ids})
+			configs++
+		}
 		// a rule line longer than 64 KiB between two short ones
 		{
 			var ds []string
